@@ -44,18 +44,24 @@ structure C17Case where
 
 /-- the run of one level; fragment submissions in index order (the order does not matter for what
 is printed, see `C17.parallel_monotone`) -/
-def levelRun (c : C17Case) (sup : Option Support) (encs : List PgEnc) (w h : Nat) :
+def levelRun (c : C17Case) (sup : Option Support) (encs : List PgEnc) (geo : Option (Nat × Nat)) (w h : Nat) :
     Option (LevelRun × Nat × Bool) := do
   let (w, h) := normSize w h
   let e ← pickEncoder encs c.color c.dith
   let fam := familyOf e.kind w h c.color c.q
-  let sv := SplitView.new w h sup c.dith c.q
-  let hs := sv.fragments.filterMap (fun f => f.map (·.2))
-  if !c.par then some (.seq fam, sv.len, true)
-  else if sv.len = 1 then some (.parSingle fam, sv.len, true)
+  -- fragment heights: from the case line when it carries the geometry of the real `SplitView` (count and
+  -- nominal height; the split rule is C14's subject and C17's theorems hold for every positive list that sums
+  -- to the height), otherwise from the split model
+  let (len, hs) : Nat × List Nat := match geo with
+    | some (n, fh) => (n, List.replicate (n - 1) fh ++ [h - (n - 1) * fh])
+    | none =>
+      let sv := SplitView.new w h sup c.dith c.q
+      (sv.len, sv.fragments.filterMap (fun f => f.map (·.2)))
+  if !c.par then some (.seq fam, len, true)
+  else if len = 1 then some (.parSingle fam, len, true)
   else
     let uniform := hs.all (fun x => some x == hs.head?)
-    some (.par c.mt hs (h + 1), sv.len, uniform || !c.mt)
+    some (.par c.mt hs (h + 1), len, uniform || !c.mt)
 
 /-- `write` events after the first report of 1 -/
 def lateWrites : List Ev → Nat
@@ -75,8 +81,17 @@ def runC17 (line : String) : String :=
     | none => "bad-case"
     | some sup =>
     match nat? w, nat? h, parseColor color, parseDith d, parseQuality q,
-        (if nf.startsWith "nf=" then nat? (nf.drop 3).toString else none) with
-    | some w, some h, some color, some d, some q, some nf =>
+        (if nf.startsWith "nf=" then nat? (((nf.drop 3).toString.splitOn "@").headD "") else none) with
+    | some w, some h, some color, some d, some q, some nfN =>
+      -- optional geometry `@n0:f0,n1:f1,…` (one pair per encoded level)
+      let geoStr : Option String := match (nf.drop 3).toString.splitOn "@" with
+        | [_, g] => some g
+        | _ => none
+      let geoList : Option (List (Nat × Nat)) := geoStr.bind fun g =>
+        (g.splitOn ",").mapM fun part => match part.splitOn ":" with
+          | [a, b] => (do let x ← nat? a; let y ← nat? b; pure (x, y))
+          | _ => none
+      let nf := nfN
       -- mips token: "0" none, "1" full chain, "m<N>" a partial chain of N >= 2 declared levels
       let mipn : Option Nat := if mips.startsWith "m" then nat? (mips.drop 1).toString else none
       let mipsOk := mips == "0" || mips == "1" ||
@@ -93,7 +108,17 @@ def runC17 (line : String) : String :=
               | some n => min n (mipCount w h) | none => mipCount w h)).map
             (fun l => (mipDim w l, mipDim h l))
           else [(w, h)]
-        match sizes.mapM (fun (x : Nat × Nat) => levelRun c (some s) encs x.1 x.2) with
+        let geoOk := match geoStr, geoList with
+          | none, _ => true
+          | some _, some gl => gl.length == sizes.length &&
+              (gl.zip sizes).all (fun (g, sz) => 1 ≤ g.1 && 1 ≤ g.2 && (g.1 - 1) * g.2 < sz.2)
+          | some _, none => false
+        if !geoOk then "bad-case" else
+        let geos : List (Option (Nat × Nat)) := match geoList with
+          | some gl => gl.map some
+          | none => sizes.map (fun _ => none)
+        match (sizes.zip geos).mapM (fun (x : (Nat × Nat) × Option (Nat × Nat)) =>
+            levelRun c (some s) encs x.2 x.1.1 x.1.2) with
         | none | some [] => "not-modelled"
         | some ((lv0, len0, det0) :: rest) =>
           if len0 ≠ nf then s!"bad-nf model={len0}" else
